@@ -12,23 +12,28 @@ namespace SMD.C13
 
 /-- a value is accepted exactly when it conforms -/
 theorem validate_ok_iff_conforms (s : Schema) (dup : Bool) (tr : TypeRef) (v : Value) :
-    validateV s dup tr v = .ok () ↔ Conf.conforms s dup tr v = true := sorry
+    validateV s dup tr v = .ok () ↔ Conf.conforms s dup tr v = true :=
+  validateV_iff s dup v tr
 
 /-- no unstructured input, however malformed, makes validation panic -/
 theorem validate_never_panics (s : Schema) (dup : Bool) (tr : TypeRef) (v : Value) :
-    validateV s dup tr v ≠ .panic := sorry
+    validateV s dup tr v ≠ .panic :=
+  validateV_ne_panic s dup v tr
 
 /-- allowing duplicates only ever accepts more -/
 theorem valid_implies_valid_with_duplicates (s : Schema) (tr : TypeRef) (v : Value) :
-    validateV s false tr v = .ok () → validateV s true tr v = .ok () := sorry
+    validateV s false tr v = .ok () → validateV s true tr v = .ok () := fun h =>
+  (validateV_iff s true v tr).2 (conforms_dup_mono s v tr ((validateV_iff s false v tr).1 h))
 
 /-- named, inlined and relationship-overriding references behave identically when they resolve to the
 same structure: validation depends on the reference only through `Schema.resolve` -/
 theorem validate_congr_resolve (s : Schema) (dup : Bool) (tr tr' : TypeRef) (v : Value)
-    (h : s.resolve tr = s.resolve tr') : validateV s dup tr v = validateV s dup tr' v := sorry
+    (h : s.resolve tr = s.resolve tr') : validateV s dup tr v = validateV s dup tr' v :=
+  validateV_congr_resolve s dup tr tr' v h
 
 /-- the field-set and removal walkers never panic either -/
-theorem fieldset_never_panics (s : Schema) (tr : TypeRef) (v : Value) : fsV s tr v ≠ .panic := sorry
+theorem fieldset_never_panics (s : Schema) (tr : TypeRef) (v : Value) : fsV s tr v ≠ .panic :=
+  fsV_ne_panic s v tr
 
 /-- non-vacuity: a keyed list with a defaulted key conforms, its duplicate does not -/
 example :
@@ -37,6 +42,6 @@ example :
     let lst : TypeRef := .mk none (.mk none (some (.mk (.mk none item none) "associative" ["port", "proto"])) none) none
     Conf.conforms ⟨[]⟩ false lst (.list [.map [("port", .int 1)], .map [("port", .int 2), ("proto", .str "UDP")]]) = true ∧
     Conf.conforms ⟨[]⟩ false lst (.list [.map [("port", .int 1)], .map [("port", .int 1), ("proto", .str "TCP")]]) = false := by
-  sorry
+  decide
 
 end SMD.C13
